@@ -163,7 +163,7 @@ def ob_driver_survives(f0: bool, f1: bool, f2: bool) -> str:
 def ob_sql_gc_pass(k0: int, x0: int, k1: int, x1: int) -> str:
     """
     pre: 0 <= k0 < 5 and 0 <= k1 < 5 and 0 <= x0 < 9 and 0 <= x1 < 9
-    pre: THOROUGH or (k1 == 0 and x0 in (0, 1, 3))
+    pre: (THOROUGH and k1 < 2 and x1 in (0, 1, 3, 7, 8)) or (k1 == 0 and x0 in (0, 1, 3))
     post: _.startswith("ok")
     """
     logging.disable(logging.CRITICAL)
